@@ -74,7 +74,8 @@ def valid_corr(ctx, d):
         ctx.diag.append("validating-reader correspondence: missing output (%s)" % ex)
         return
     cnt = {"accepted_same": 0, "unclosed_batch_same": 0, "rejected_same": 0, "skipped_batch_rule_not_modelled": 0,
-           "skipped_unrecognised_record_rule": 0, "file_validate_rule_not_modelled": 0}
+           "skipped_unrecognised_record_rule": 0, "file_validate_rule_not_modelled": 0,
+           "rejected_by_record_rule": 0, "rejected_by_batch_arithmetic": 0, "rejected_structure": 0}
     mo, io, co = [], [], []
     for k in range(min(len(m), len(i))):
         a, b = m[k], i[k]
@@ -96,9 +97,19 @@ def valid_corr(ctx, d):
                 elif u == "1" and any(c.startswith("R:") for c in cl):
                     cnt["skipped_unrecognised_record_rule"] += 1
                     a = b = "SKIP"
-        elif a == "ERR" and bt[0] == "ERR":
-            cnt["rejected_same"] += 1
-            b = "ERR"
+        elif at[0] == "ERR" and bt[0] == "ERR":
+            # the model names the layer that rejects: a record rule => the code reports a record (field) error,
+            # the batch arithmetic alone => the code reports a batch error
+            cl = b.split(" ")[1:]
+            why = at[1] if len(at) > 1 else "00"
+            if why[0] == "1" and not any(c.startswith("R:") for c in cl):
+                a, b = "ERR record-rule", "ERR " + " ".join(cl)
+            elif why[1:2] == "1" and not any(c.startswith("B") for c in cl):
+                a, b = "ERR batch-arithmetic", "ERR " + " ".join(cl)
+            else:
+                cnt["rejected_same"] += 1
+                cnt["rejected_by_record_rule" if why[0] == "1" else "rejected_by_batch_arithmetic" if why[1:2] == "1" else "rejected_structure"] += 1
+                a = b = "ERR"
         mo.append(a)
         io.append(b)
         co.append((ds[k] if k < len(ds) else "?")[:300])
